@@ -159,7 +159,7 @@ func init() {
 	})
 	register(&Prop{
 		ID: "C08",
-		Rules: []*Rule{rTypeNameRaw, scoped(rOpaque, "a received layer keeps the family name it came with (getTypeDetails of the opaque types)", func(_ *core.Ctx, k string) bool { return strings.Contains(k, "getTypeDetails") }), scoped(rEffect, "Is/IsAny are pure functions of their arguments: no package-level memo of marks", func(_ *core.Ctx, k string) bool { return containsAny(k, "markers.", "getMark", "Mark") }), rKeyMarker, rCmpGuard, {Name: "R-BOUNDS", Doc: rBounds.Doc + " (restricted to package markers: equalMarks' lock-step indexing is also the 'difference in chain length makes them different' clause)",
+		Rules: []*Rule{rIsAnyNil, rTypeNameRaw, scoped(rOpaque, "a received layer keeps the family name it came with (getTypeDetails of the opaque types)", func(_ *core.Ctx, k string) bool { return strings.Contains(k, "getTypeDetails") }), scoped(rEffect, "Is/IsAny are pure functions of their arguments: no package-level memo of marks", func(_ *core.Ctx, k string) bool { return containsAny(k, "markers.", "getMark", "Mark") }), rKeyMarker, rCmpGuard, {Name: "R-BOUNDS", Doc: rBounds.Doc + " (restricted to package markers: equalMarks' lock-step indexing is also the 'difference in chain length makes them different' clause)",
 			Run: func(c *core.Ctx) {
 				runBounds(c, func(rel, fn string) bool { return rel == "markers" })
 			}}, rRecover, rNilSafe, rMarkLayers, rCtorCause, rWalkCurrent, rIsMethod, scoped(rWalkMulti, "Is and IsAny range over errbase.UnwrapMulti itself (no derived collection keyed by error values, which may be unhashable)", func(_ *core.Ctx, k string) bool { return strings.Contains(k, "markers.Is") }), rMemo, scoped(rAlwaysWraps, "Mark", func(_ *core.Ctx, k string) bool { return strings.Contains(k, "Mark(") }), scoped(rStdIdentity, "identity tests", func(_ *core.Ctx, k string) bool { return containsAny(k, "errors.Is", "errors.As") }), {Name: "R-LOOP-EXITS", Doc: rLoopExits.Doc, Run: func(c *core.Ctx) { runLoopExits(c, map[string]bool{"markers.Is": true, "markers.IsAny": true}) }}},
@@ -187,7 +187,7 @@ func init() {
 	})
 	register(&Prop{
 		ID:    "C05",
-		Rules: []*Rule{rAssertNil, rRegistryNonNil, rAssertOK, rBounds, rNilField, rDecodeNonNil, rTypedNil, rEnumTotal, rUnmarshalOK, rPbNilPtr, scoped(rOpaque, "the opaque arms of encodeLeaf/encodeWrapper: a received opaque value is re-emitted from its stored fields and never handed to a registered encoder (whose type assertion would panic)", func(_ *core.Ctx, k string) bool { return strings.Contains(k, "re-emits") })},
+		Rules: []*Rule{rRegistryClosure, rAssertNil, rRegistryNonNil, rAssertOK, rBounds, rNilField, rDecodeNonNil, rTypedNil, rEnumTotal, rUnmarshalOK, rPbNilPtr, scoped(rOpaque, "the opaque arms of encodeLeaf/encodeWrapper: a received opaque value is re-emitted from its stored fields and never handed to a registered encoder (whose type assertion would panic)", func(_ *core.Ctx, k string) bool { return strings.Contains(k, "re-emits") })},
 		Explain: "Decides, for every site in /repo's hand-written source, structural necessary conditions of 'DecodeError and the decoded error's methods never panic': " +
 			"no unchecked type assertion on wire-controlled values (R-ASSERT-OK). " +
 			"NOT decided: panics inside dependencies (gogo/protobuf UnmarshalAny, grpc status), arbitrary fuzzed bytes, and panic classes other than failed type assertions, out-of-range indexing and nil dereference of decoder-built fields.",
